@@ -70,10 +70,10 @@ func evInstall(term, ad, id, li, lt uint64, cfg []srv, ci uint64, data []uint64,
 	out = append(out, b2u(short))
 	return append(out, tail(cut, fails)...)
 }
-func evTimeoutNow() []uint64          { return append([]uint64{5}, tail(0, nil)...) }
+func evTimeoutNow() []uint64                 { return append([]uint64{5}, tail(0, nil)...) }
 func evElect(cut int, fails []bool) []uint64 { return append([]uint64{6}, tail(cut, fails)...) }
-func evRestart() []uint64             { return append([]uint64{7}, tail(0, nil)...) }
-func evDecision() []uint64            { return append([]uint64{8}, tail(0, nil)...) }
+func evRestart() []uint64                    { return append([]uint64{7}, tail(0, nil)...) }
+func evDecision() []uint64                   { return append([]uint64{8}, tail(0, nil)...) }
 
 // standard 3-voter configuration {S=1, A=2, B=3} + variants
 var cfgSAB = []srv{{0, 1, 1}, {0, 2, 2}, {0, 3, 3}}
@@ -100,9 +100,9 @@ func nsRun(cw *caseWriter, tag string, in []uint64, monitors func(tag string, in
 func c06images() []*nsGen {
 	var out []*nsGen
 	cfgs := [][]srv{
-		cfgSAB,                                   // A, B voters
-		{{0, 1, 1}, {1, 2, 2}, {0, 3, 3}},        // A non-voter
-		{{0, 1, 1}, {0, 3, 3}},                   // A absent
+		cfgSAB,                            // A, B voters
+		{{0, 1, 1}, {1, 2, 2}, {0, 3, 3}}, // A non-voter
+		{{0, 1, 1}, {0, 3, 3}},            // A absent
 	}
 	for ci, cfg := range cfgs {
 		for _, logShape := range []int{0, 1} {
@@ -305,7 +305,7 @@ func stateOfBoot(o []uint64) []uint64 {
 
 // events decoded from the input (kind + fields), aligned with the observations
 type nsEvent struct {
-	kind                          uint64
+	kind                           uint64
 	term, id, ad, li, lt, transfer uint64
 }
 
@@ -380,6 +380,8 @@ func c06monitor(cw *caseWriter) func(tag string, in, obs []uint64) {
 		}
 		cur := stateOfBoot(parts[0])
 		granted := map[uint64]uint64{} // term -> candidate address granted
+		claims := map[[2]uint64]bool{} // (sender address, term) of every AppendEntries / InstallSnapshot received
+		c18off := false
 		var maxTerm uint64
 		if cur != nil {
 			maxTerm = cur[sTerm]
@@ -409,6 +411,19 @@ func c06monitor(cw *caseWriter) func(tag string, in, obs []uint64) {
 				next = stateOfBoot(o)
 			default:
 				next = nil
+			}
+			// C18: a follower advertises only a server whose AppendEntries / InstallSnapshot of the
+			// follower's current term it has received
+			if e.kind == 3 || e.kind == 4 {
+				claims[[2]uint64{e.ad, e.term}] = true
+			}
+			if e.kind == 6 && cur != nil && cur[sRole] == 0 {
+				// electSelf called on a follower: a stimulus of the harness that the code cannot produce
+				// (its only caller is runCandidate) - outside the hypothesis of C18_advertised_leader
+				c18off = true
+			}
+			if !c18off && next != nil && next[sRole] == 0 && next[sLeader] != 0 && !claims[[2]uint64{next[sLeader], next[sTerm]}] {
+				cw.monitor("C18", tag, "follower-advertises-server-without-claim-for-its-term", "event %d: follower in term %d names a%d as leader, no AppendEntries/InstallSnapshot of term %d from it was received", i, next[sTerm], next[sLeader], next[sTerm])
 			}
 			// (a) reported terms never decrease, also across restarts
 			if next != nil {
